@@ -124,3 +124,101 @@ def judge(o: Dict[str, Any], col: str = "temperature") -> List[Tuple[str, str]]:
     if extra_cols:
         bad.append(("data", f"unexpected column stores {extra_cols} {ctx}"))
     return bad
+
+
+# ------------------------------------------------------------------------------------------------ cross-column flow (C05 R05.4)
+def cross_column_outcomes(chk) -> List[Dict[str, Any]]:
+    """interpolate() on a frame holding temperature, ghi and observed, for every order in which the three columns can be handed in (the
+    hourly data classes use temperature, observed, ghi), short / medium / long frames.  Every argument of the autocorrelation fill is
+    recorded, and scalars computed from a column keep that column in their term; what comes back is, per column, the term finally stored
+    and the terms of its flag stores."""
+    import itertools
+    fi = chk.repo.func(HI, "interpolate")
+    outs = []
+    cols3 = ["temperature", "observed", "ghi"]
+    orders = [list(p) for p in itertools.permutations(cols3)] + [None]
+    for n in (50, 100, 600, 5000):
+        for order in orders:
+            orc = Oracle()
+
+            def run():
+                w = SymWorld(orc)
+                df = sym_root(w, "df")
+                w.lengths[df.key()] = n
+                w.members["df.columns"] = set(cols3)
+
+                def icol(x, lags, *a, **k):
+                    return Sym(w, "call", sym_root(w, "_interpolate_col"), (x, lags) + tuple(a), tuple(sorted(k.items())))
+                it = Interp(step_limit=200_000)
+                env = ModuleEnv(chk.repo, fi.module, it, {"_interpolate_col": StubCall(icol), "np": sym_root(w, "np"), "pd": sym_root(w, "pd")})
+                try:
+                    r = Function(fi.node, env, it)(df, order) if order is not None else Function(fi.node, env, it)(df)
+                except InterpRaised as e:
+                    return {"raises": e.exc_name}
+                return {"cols": {k: canon(v) for k, v in (r._cols.items() if isinstance(r, Sym) else [])}, "effects": [tuple(str(x) for x in e) for e in w.effects]}
+            try:
+                seen = set()
+                for tr, res in explore(run, orc, max_runs=2048):
+                    sig = repr(sorted((res.get("cols") or {}).items())) + repr(res.get("effects")) + repr(res.get("raises"))
+                    if sig in seen:
+                        continue
+                    seen.add(sig)
+                    res = dict(res)
+                    res.update(n_rows=n, order=order, decisions=tr)
+                    outs.append(res)
+            except Unsupported as e:
+                raise AnalysisError(f"{fi.key}: uses an operation outside the modelled subset: {e}")
+    return outs
+
+
+def usage_into_weather(o: Dict[str, Any]) -> List[str]:
+    """Weather columns (and their flags) whose stored term mentions the usage column."""
+    bad = []
+    for c, term in (o.get("cols") or {}).items():
+        if ("temperature" in c or "ghi" in c) and "observed" in term:
+            bad.append(f"df['{c}'] = {term[:220]}")
+    for e in o.get("effects") or []:
+        if e and e[0] == "setitem" and any(("temperature" in x or "ghi" in x) for x in e[2:3]) and any("'observed'" in x for x in e[2:]):
+            if "interpolated_temperature" in e[2] or "interpolated_ghi" in e[2] or "'temperature')" in e[2] or "'ghi')" in e[2]:
+                bad.append(f"store {e[1:]}"[:260])
+    return bad
+
+
+def usage_controls_weather(outs: List[Dict[str, Any]]) -> List[str]:
+    """Implicit flow: the interpreter explores every data-dependent test both ways and records the tested term.  Project each run onto
+    what concerns the weather columns only: the sequence of tests whose term does not mention the usage column, and the terms finally
+    stored for temperature / ghi and their flags.  In a program where usage does not steer the weather columns, two runs that answered
+    the weather-only tests identically so far are asked the same next weather-only test, and end with the same weather terms.  A
+    divergence is a test on the usage column deciding what happens to a weather column."""
+    bad: List[str] = []
+    groups: Dict[Tuple[Any, Any], List[Dict[str, Any]]] = {}
+    for o in outs:
+        if "raises" in o:
+            continue
+        groups.setdefault((o["n_rows"], repr(o["order"])), []).append(o)
+    for (n, order), runs in groups.items():
+        trie: Dict[Tuple, Any] = {}
+        for o in runs:
+            wonly = [(t, v) for t, v in o["decisions"] if "observed" not in t]
+            proj = tuple(sorted((c, t) for c, t in (o.get("cols") or {}).items() if "temperature" in c or "ghi" in c)) + \
+                tuple(e for e in (o.get("effects") or []) if any(("interpolated_temperature" in x or "interpolated_ghi" in x) for x in e))
+            prefix: Tuple = ()
+            for i, (t, v) in enumerate(wonly):
+                node = trie.setdefault(prefix, {"next": t, "by": o})
+                if node.get("next") is None:
+                    node["next"] = "<end>"
+                if node["next"] != t:
+                    ob = [d for d in o["decisions"] if "observed" in d[0]][:2]
+                    bad.append(f"columns {order}, {n} rows: after the same answers to the weather-only tests, one run goes on to test `{node['next'][:120]}` and another `{t[:120]}`; "
+                               f"the difference is decided by a test on the usage column ({[x[0][:100] for x in ob]})")
+                    break
+                prefix = prefix + ((t, v),)
+            else:
+                node = trie.setdefault(prefix, {"next": "<end>", "proj": proj, "by": o})
+                if node.get("next") != "<end>":
+                    bad.append(f"columns {order}, {n} rows: one run stops where another goes on to test `{str(node.get('next'))[:120]}`, decided by a test on the usage column")
+                elif node.get("proj", proj) != proj:
+                    bad.append(f"columns {order}, {n} rows: same answers to every weather-only test, different weather columns stored: {[x for x in proj if x not in node['proj']][:1]}")
+        if bad:
+            break
+    return bad[:3]
